@@ -52,6 +52,12 @@ def run(P, R, tier):
     R.undecided += ["(c) every text cell is the table's full-precision value rendered in the block's print format",
                     "row-count contract over all block shapes (arithmetic)", "content of the selected-output file on disk"]
     sibling_rules(P, R)
+    # "the C, C++ and Fortran-binding accessors agree cell by cell": the Fortran glue hands every text cell and line through padfstring
+    from .c04 import _Renamed
+    from . import c13 as C13
+    pf = [g for g in P.functions.values() if g["file"] == "IPhreeqc_interface_F.cpp" and g["q"] == "padfstring" and g.get("body")]
+    R.rule("C05.fpad", "padfstring (every text cell and line of the Fortran binding): copies min(strlen, *len) characters, blank-fills up to *len, reports strlen", minimum=2)
+    C13.check_pad(P, _Renamed(R, "C13.pad", "C05.fpad"), pf[0] if pf else None)
     trisink_rules(P, R)
     who_rules(P, R)
     get_rules(P, R)
@@ -61,6 +67,7 @@ def run(P, R, tier):
     upgate_rule(P, R)
     tablerow_rule(P, R)
     rowend_rule(P, R)
+    punchscope_rule(P, R)
     lines_rule(P, R, "C05.lines", only=("GetSelectedOutputStringLine",))
     once_rule(P, R)
     open_rule(P, R)
@@ -1164,3 +1171,54 @@ def tablerow_rule(P, R):
     else:
         R.violation(RULE, "PushBackEmpty:padkeep", "PushBackEmpty calls PushBack without testing whether the pending row already has a cell for that heading: PushBack then replaces the "
                     "punched value by EMPTY (repeated heading names)", file=g["file"], line=calls[0][1], function=g["q"])
+
+
+def punchscope_rule(P, R):
+    """"columns in the same order ... cells never punched are empty": the cells of a USER_PUNCH block are written by the PUNCH statements of
+    that block's program, in order, under the headings of the block (fpunchf_user with the running index n_user_punch_index).  Other
+    BASIC programs run while the same row is written (CALCULATE_VALUES listed under -calculate_values) and may contain PUNCH; they must
+    not reach fpunchf_user - the index is then -1 (headings[-1]) or stale.  cmdpunch calls fpunchf_user only under Phreeqc::in_user_punch,
+    and punch_user_punch sets that flag immediately around the run of its own program."""
+    RULE = "C05.punchscope"
+    R.rule(RULE, "PUNCH reaches fpunchf_user only under in_user_punch; punch_user_punch brackets the run of its program with the flag", minimum=11)
+    f = P.one("PBasic::cmdpunch")
+    n = 0
+
+    def visit(node, guarded):
+        nonlocal n
+        if not T.is_node(node):
+            return
+        if node[0] == "If":
+            g = guarded or any(y[0] == "Member" and y[2] == "Phreeqc::in_user_punch" for y in T.walk(node[2]))
+            visit(node[3], g)
+            visit(node[4], guarded)
+            return
+        if node[0] == "Call" and T.callee_name(node) == "fpunchf_user":
+            n += 1
+            inst = "cmdpunch@%d" % (node[1] - f["line"])
+            if guarded:
+                R.ok(RULE, inst, "under in_user_punch")
+            else:
+                R.violation(RULE, inst, "PUNCH writes a cell (fpunchf_user) without the test of in_user_punch: a PUNCH statement in a CALCULATE_VALUES program that runs while "
+                            "a row is written uses the cell index of another program (-1: out-of-bounds read of the headings)", file=f["file"], line=node[1], function=f["q"])
+        for c in node[2:]:
+            if isinstance(c, list):
+                if c and isinstance(c[0], str):
+                    visit(c, guarded)
+                else:
+                    for cc in c:
+                        if isinstance(cc, list) and cc and isinstance(cc[0], str):
+                            visit(cc, guarded)
+    visit(f["body"], False)
+    g = P.one("Phreeqc::punch_user_punch")
+    sets = [(w[1], T.text(T.strip_casts(w[4]))) for w in T.walk(g["body"]) if w[0] == "Bin" and w[2] == "=" and any(y[0] == "Member" and y[2] == "Phreeqc::in_user_punch"
+                                                                                                            for y in T.walk(w[3]))]
+    runs = [c[1] for c in T.calls(g["body"]) if T.callee_name(c) == "basic_run"]
+    n += 1
+    if runs and any(l < runs[0] and v in ("true", "1") for l, v in sets) and any(l >= runs[0] and v in ("false", "0") for l, v in sets):
+        R.ok(RULE, "punch_user_punch", "in_user_punch = true before basic_run, false after")
+    else:
+        R.violation(RULE, "punch_user_punch", "punch_user_punch does not bracket the run of its program with in_user_punch (true before basic_run, false after)",
+                    file=g["file"], line=g["line"], function=g["q"])
+    if n < 11:
+        R.anchor_missing(RULE, "only %d sites examined" % n)
